@@ -85,6 +85,12 @@ pub trait CrashSpec {
     fn sector_sizes(&self, tier: Tier) -> Vec<usize> {
         tier.pick(vec![512], vec![512, 64])
     }
+    /// true for a format that carries checksums over its payload: every image of the FINAL file with one sector reading as
+    /// zeros (never written / lost) is reopened as well and must be refused — as a whole or record by record.  This is damage
+    /// to a finished file ("damaged files are refused"), independent of how atomically the writer works.
+    fn lost_sector_images(&self) -> bool {
+        false
+    }
 }
 
 pub struct Crash<S: CrashSpec> {
@@ -172,6 +178,10 @@ struct ImageDesc {
     /// 2: as 1, and the old file length is kept as well (old tail after the new bytes).
     #[serde(default)]
     underlay: u8,
+    /// (file, offset, length): this range of the final file reads as zeros — a sector that was never written / was lost
+    /// (only for specs whose format promises to detect it, see `CrashSpec::lost_sector_images`)
+    #[serde(default)]
+    zeroed: Option<(String, usize, usize)>,
 }
 
 struct SectorWrite {
@@ -341,6 +351,14 @@ fn image_from_desc(log: &[LogOp], d: &ImageDesc) -> Files {
     if let Some((f, len)) = &d.truncate {
         if let Some(c) = files.get_mut(f) {
             c.truncate(*len);
+        }
+    }
+    if let Some((f, off, len)) = &d.zeroed {
+        if let Some(c) = files.get_mut(f) {
+            let end = (*off + *len).min(c.len());
+            if *off < end {
+                c[*off..end].fill(0);
+            }
         }
     }
     files
@@ -638,13 +656,13 @@ impl Eng<'_> {
             for prefix in 0..=log.len() {
                 let (_, ids, had_old) = build_image_full(&log, prefix, sector, &HashSet::new(), 0);
                 let n_unsynced = ids.len();
-                descs.push(ImageDesc { prefix, sector, dropped: vec![], truncate: None, kind: "prefix".into(), underlay: 0 });
+                descs.push(ImageDesc { prefix, sector, dropped: vec![], truncate: None, kind: "prefix".into(), underlay: 0, zeroed: None });
                 let first_desc = descs.len();
                 if had_old {
                     // the truncation of the older file is itself not durable yet: old bytes where nothing new was written, with
                     // the new and with the old file length
-                    descs.push(ImageDesc { prefix, sector, dropped: vec![], truncate: None, kind: "prefix+old_blocks".into(), underlay: 1 });
-                    descs.push(ImageDesc { prefix, sector, dropped: vec![], truncate: None, kind: "prefix+old_blocks+old_length".into(), underlay: 2 });
+                    descs.push(ImageDesc { prefix, sector, dropped: vec![], truncate: None, kind: "prefix+old_blocks".into(), underlay: 1, zeroed: None });
+                    descs.push(ImageDesc { prefix, sector, dropped: vec![], truncate: None, kind: "prefix+old_blocks+old_length".into(), underlay: 2, zeroed: None });
                 }
                 if n_unsynced == 0 {
                     continue;
@@ -654,7 +672,7 @@ impl Eng<'_> {
                 let mut push = |descs: &mut Vec<ImageDesc>, dropped: Vec<usize>, kind: &str| {
                     let closed = close_dropped(&ids, &dropped);
                     if !closed.is_empty() && seen_sets.insert(closed.clone()) {
-                        descs.push(ImageDesc { prefix, sector, dropped: closed, truncate: None, kind: kind.into(), underlay: 0 });
+                        descs.push(ImageDesc { prefix, sector, dropped: closed, truncate: None, kind: kind.into(), underlay: 0, zeroed: None });
                     }
                 };
                 if n_unsynced <= 10 {
@@ -686,10 +704,22 @@ impl Eng<'_> {
         }
         for (f, c) in &full {
             for len in truncation_lengths(c.len()) {
-                descs.push(ImageDesc { prefix: log.len(), sector: 512, dropped: vec![], truncate: Some((f.clone(), len)), kind: "truncated".into(), underlay: 0 });
+                descs.push(ImageDesc { prefix: log.len(), sector: 512, dropped: vec![], truncate: Some((f.clone(), len)), kind: "truncated".into(), underlay: 0, zeroed: None });
             }
         }
 
+        if self.spec.lost_sector_images() {
+            for (f, c) in &full {
+                for sector in [512usize, 64] {
+                    let mut off = 0usize;
+                    while off < c.len() {
+                        // (a sector that is all zeros already gives the undamaged file: the image hash removes it)
+                        descs.push(ImageDesc { prefix: log.len(), sector, dropped: vec![], truncate: None, kind: "sector_lost".into(), underlay: 0, zeroed: Some((f.clone(), off, sector)) });
+                        off += sector;
+                    }
+                }
+            }
+        }
         let nshards = ctx.args.nshards;
         let shard = ctx.args.shard;
         let offset = (h64(&self.spec.name()) % nshards as u64) as usize;
@@ -706,7 +736,7 @@ impl Eng<'_> {
             let files = image_from_desc(&log, d);
             let hsh = h64(&files);
             ctx.stats(&name).executions += 1;
-            let clean_sync: Vec<usize> = if d.kind == "prefix" && d.dropped.is_empty() && d.truncate.is_none() {
+            let clean_sync: Vec<usize> = if d.kind == "prefix" && d.dropped.is_empty() && d.truncate.is_none() && d.zeroed.is_none() {
                 explicit.iter().copied().filter(|&i| states[i].0 == d.prefix).collect()
             } else {
                 Vec::new()
@@ -724,7 +754,7 @@ impl Eng<'_> {
             }
             let ans = self.reopen_isolated(&img_dir);
             // an image is non-trivial iff it differs from every synced snapshot (complete-prefix image at a sync position)
-            let nontrivial = !d.dropped.is_empty() || d.truncate.is_some() || !states.iter().any(|(p, _)| *p == d.prefix);
+            let nontrivial = !d.dropped.is_empty() || d.truncate.is_some() || d.zeroed.is_some() || !states.iter().any(|(p, _)| *p == d.prefix);
             match self.judge(ans, &states, d.prefix, &d.kind, &clean_sync) {
                 Ok(class) => {
                     if !clean_sync.is_empty() {
